@@ -65,6 +65,8 @@ Proof.
   - split; [lia|reflexivity].
   - split; [|reflexivity]. apply Nat.eqb_eq. assumption.
   - exists (uleb_enc (zlen bs) k). split; [apply uleb_enc_valid, zlen_nonneg|reflexivity].
+  - split; [lia|reflexivity].
+  - split; [lia|reflexivity].
 Qed.
 
 Lemma enc_entries_enc le is64 k es :
@@ -146,20 +148,22 @@ Proof.
   apply andb_prop in H. destruct H as [H1 H2]. repeat split; [lia|exact H2|apply list_eqb_eq; exact H3].
 Qed.
 
-Lemma fval_refs_sound ls st v : zlen ls < 2 ^ 63 -> zlen st < 2 ^ 63 ->
-  fval_refs_ok_b ls st v = true -> refs_present (Some ls) (Some st) v.
+Lemma fval_refs_sound ls st sup v : zlen ls < 2 ^ 63 -> zlen st < 2 ^ 63 -> zlen sup < 2 ^ 63 ->
+  fval_refs_ok_b ls st sup v = true -> refs_present (Some ls) (Some st) (Some sup) v.
 Proof.
-  intros Hl Hs H. destruct v; cbn [fval_refs_ok_b refs_present] in *; try exact I.
+  intros Hl Hs Hp H. destruct v; cbn [fval_refs_ok_b refs_present] in *; try exact I.
   - exists ls. split; [reflexivity|split; [apply str_at_b_sound; exact H|exact Hl]].
   - exists st. split; [reflexivity|split; [apply str_at_b_sound; exact H|exact Hs]].
+  - exists sup. split; [reflexivity|split; [apply str_at_b_sound; exact H|exact Hp]].
+  - exists sup. split; [reflexivity|split; [apply str_at_b_sound; exact H|exact Hp]].
 Qed.
 
-Lemma header_refs_sound ls st h : zlen ls < 2 ^ 63 -> zlen st < 2 ^ 63 ->
-  header_refs_ok_b ls st h = true ->
-  Forall (Forall (refs_present (Some ls) (Some st))) (h_dirs h) /\
-  Forall (Forall (refs_present (Some ls) (Some st))) (h_file_names h).
+Lemma header_refs_sound ls st sup h : zlen ls < 2 ^ 63 -> zlen st < 2 ^ 63 -> zlen sup < 2 ^ 63 ->
+  header_refs_ok_b ls st sup h = true ->
+  Forall (Forall (refs_present (Some ls) (Some st) (Some sup))) (h_dirs h) /\
+  Forall (Forall (refs_present (Some ls) (Some st) (Some sup))) (h_file_names h).
 Proof.
-  intros Hl Hs H. unfold header_refs_ok_b in H. apply andb_prop in H. destruct H as [H1 H2].
+  intros Hl Hs Hp H. unfold header_refs_ok_b in H. apply andb_prop in H. destruct H as [H1 H2].
   split.
   - apply forallb_Forall in H1. eapply Forall_impl; [|exact H1]. intros e He. cbn beta in He.
     apply forallb_Forall in He. eapply Forall_impl; [|exact He]. intros v Hv. apply fval_refs_sound; assumption.
@@ -170,17 +174,18 @@ Qed.
 (* ---------------------------------------------------------------- a certified generated case *)
 (* exactly what the driver evaluates for a 'unit' case (ops wf_header, wf_prog, encode_unit,
    encode_prog, expected_view, rows_spec) implies the conclusion of unit_rows *)
-Theorem checked_unit_rows secs s h k (progk : list (instr * nat * nat)) ls st pre tail :
+Theorem checked_unit_rows secs s h k (progk : list (instr * nat * nat)) ls st sup pre tail :
   let le := ms_le s in
   let instrs := map (fun x => fst (fst x)) progk in
   let prog := encode_prog (cfg_of s) progk in
   let e := encode_unit le k h prog in
-  wf_header h && wf_header_values h && header_refs_ok_b ls st h = true ->
+  wf_header h && wf_header_values h && header_refs_ok_b ls st sup h = true ->
   wf_prog (cfg_of s) (h_params h) instrs = true ->
   sizes_ok (h_is64 h) (unit_length_of le k h prog) (header_length_of le k h) = true ->
   ms_is64 s = h_is64 h ->
   sec_line secs = pre ++ e ++ tail -> sec_line_str secs = Some ls -> sec_str secs = Some st ->
-  zlen ls < 2 ^ 63 -> zlen st < 2 ^ 63 ->
+  sec_sup_str secs = Some (Some sup) ->
+  zlen ls < 2 ^ 63 -> zlen st < 2 ^ 63 -> zlen sup < 2 ^ 63 ->
   (h_version h < 5 \/ defined_files instrs = []) ->
   exists lp es,
     parse_line_program_uncached secs (zlen pre) s = Ok lp /\
@@ -189,14 +194,14 @@ Theorem checked_unit_rows secs s h k (progk : list (instr * nat * nat)) ls st pr
     get_entries secs lp = Ok (es, defined_files instrs, 0, tail) /\
     map regs_of (entry_states es) = rows_spec (h_params h) instrs.
 Proof.
-  intros le instrs prog e Hwf Hprog Hsz Hs64 Hsec Hls Hst Hlsz Hssz Hdef.
+  intros le instrs prog e Hwf Hprog Hsz Hs64 Hsec Hls Hst Hsup Hlsz Hssz Hpsz Hdef.
   apply andb_prop in Hwf. destruct Hwf as [Hwf Hrefs]. apply andb_prop in Hwf. destruct Hwf as [Hwf Hval].
-  destruct (header_refs_sound ls st h Hlsz Hssz Hrefs) as [Hd Hf].
+  destruct (header_refs_sound ls st sup h Hlsz Hssz Hpsz Hrefs) as [Hd Hf].
   rewrite unit_length_of_rest in *. unfold header_length_of in *.
   apply (unit_rows secs s h (encode_body le k h) prog pre tail Hwf Hs64
            (encode_body_enc le k h Hwf Hval) Hsz Hsec).
-  - unfold refs_ok. rewrite Hls, Hst. exact Hd.
-  - unfold refs_ok. rewrite Hls, Hst. exact Hf.
+  - unfold refs_ok. rewrite Hls, Hst, Hsup. exact Hd.
+  - unfold refs_ok. rewrite Hls, Hst, Hsup. exact Hf.
   - apply wf_prog_enc. exact Hprog.
   - exact Hdef.
 Qed.
